@@ -12,6 +12,7 @@ import PicoVerif.Model.Writers
 import PicoVerif.Spec.LuaLex
 import PicoVerif.Model.PicoGrammar
 import PicoVerif.Model.AstWriters
+import PicoVerif.Model.Build
 /-! Line-protocol driver over the executable models (compiled; must not import Mathlib).
 One request per line: `op arg arg ...`; one response line per request.
 Byte strings travel as lower-case hex (`-` = empty). -/
@@ -372,6 +373,25 @@ def handle (st : St) (line : String) : St × String :=
     match w.toNat?, d.toNat?, parseHex h with
     | some w, some d, some r => "ok " ++ showHex (Ast.normRun w d (st == "1") (en == "1") r)
     | _, _, _ => "bad-op"
+  -- build OUTEXTOK OUTEXISTS sec*6 where sec = file|n , empty(0/1) , exists , cartExt , luaExt
+  | "build" :: oe :: ox :: secsArgs =>
+    let parseSec (w : String) : Option (Build.SecArg × Build.FileInfo) :=
+      match w.splitOn "," with
+      | [f, e, x, c, l] =>
+        some ({ file := f.toNat?, empty := e == "1" },
+              { exists_ := x == "1", cartExt := c == "1", luaExt := l == "1", content := fun _ => [70] ++ (f.toUTF8.toList) })
+      | _ => none
+    match secsArgs.mapM parseSec with
+    | some l =>
+      if l.length ≠ 6 then "bad-op" else
+      let idx (s : Build.Sec) : Nat := match s with | .lua => 0 | .gfx => 1 | .gff => 2 | .map => 3 | .sfx => 4 | .music => 5
+      let args : Build.Sec → Build.SecArg := fun s => (l.getD (idx s) ({}, ⟨false, false, false, fun _ => []⟩)).1
+      -- file ids are per section here: file f of section s
+      let files : Nat → Build.FileInfo := fun f => ((l.find? fun p => p.1.file == some f).map (·.2)).getD ⟨false, false, false, fun _ => []⟩
+      match Build.doBuild (oe == "1") args files (fun _ => [69]) (if ox == "1" then some (fun _ => [79]) else none) with
+      | .ok r => "ok " ++ " ".intercalate (Build.secs.map fun s => String.ofList ((r s).map fun b => Char.ofNat b.toNat))
+      | .error e => showErr e
+    | none => "bad-op"
   | ["speclex", h] => (parseHex h).elim "bad-op" fun d =>
       match Spec.Lex.lexSource d with
       | some ts => showToks (.ok ts)
